@@ -678,7 +678,7 @@ func hasTopkTie(ps *plannedSet, q *query) bool {
 // syntacticTrigger: the finding classes that are assigned by the shape of the expression alone
 // (see known_findings.jsonl for the causes and witnesses). Order: the most specific first.
 func syntacticTrigger(q *query) string {
-	hasSubq, atInRange, topkInner, negOffFilter := false, false, false, false
+	hasSubq, atInRange, topkInner, scalarFilter, vvBinop, negOffset := false, false, false, false, false, false
 	var visit func(e expr, root bool, inSubq bool)
 	visit = func(e expr, root bool, inSubq bool) {
 		switch n := e.(type) {
@@ -686,25 +686,19 @@ func syntacticTrigger(q *query) string {
 			if n.at != nil {
 				atInRange = true
 			}
+			if n.offset < 0 {
+				negOffset = true
+			}
 		case *rangeFn:
 			visit(n.sel, false, inSubq)
 		case *aggExpr:
 			visit(n.e, false, inSubq)
 		case *binExpr:
-			// a filter comparison with a scalar directly above a vector-vector operation one of
-			// whose operands carries a negative offset
 			if !n.isBool && isCmp(n.op) && (isScalar(n.l) != isScalar(n.r)) {
-				inner := n.l
-				if isScalar(n.l) {
-					inner = n.r
-				}
-				if ib, ok := inner.(*binExpr); ok && !isScalar(ib.l) && !isScalar(ib.r) {
-					ib.walk(func(x expr) {
-						if sl, ok := x.(*selector); ok && sl.offset < 0 {
-							negOffFilter = true
-						}
-					})
-				}
+				scalarFilter = true
+			}
+			if !isScalar(n.l) && !isScalar(n.r) {
+				vvBinop = true
 			}
 			visit(n.l, false, inSubq)
 			visit(n.r, false, inSubq)
@@ -725,7 +719,10 @@ func syntacticTrigger(q *query) string {
 				case *setExpr:
 					vv = true
 				}
-				_, plain := n.e.(*selector)
+				sel, plain := n.e.(*selector)
+				if plain && sel.matchers[0].kind != "eq" {
+					plain = false // several metrics: the choice is made per measurement
+				}
 				if !root || n.param < 1 || vv || !plain {
 					topkInner = true
 				}
@@ -741,7 +738,9 @@ func syntacticTrigger(q *query) string {
 		return "at-modifier-slides-with-step"
 	case topkInner:
 		return "topk-elements-lose-labels-inside"
-	case negOffFilter:
+	case scalarFilter && vvBinop && negOffset:
+		// a scalar filter comparison and a vector-vector operation in one expression, an operand
+		// with a negative offset
 		return "filter-above-binop-negative-offset"
 	}
 	return ""
